@@ -44,13 +44,16 @@ def forest_features(X2d, intervals):
     return np.column_stack(cols).astype(np.float32)
 
 
-def observe(entry, labels, seed, n_train=14, n_test=6):
+def observe(entry, labels, seed, n_train=14, n_test=6, refit=False, level=0.0):
     warnings.filterwarnings("ignore")
     import joblib
     from sktime.utils.data_processing import from_nested_to_3d_numpy
-    ncol = 2 if entry["name"] == "column_ensemble" else 1
+    ncol = 2 if entry["name"].startswith("column_ensemble") else 1
     Xtr, ytr = E.make_panel(n_train, ncol, 12, seed, labels=labels, noise=3.0)
     Xte, yte = E.make_panel(n_test, ncol, 12, seed + 77, labels=labels, noise=3.0)
+    if level:      # large level relative to the variation (numerical robustness of interval features)
+        Xtr = Xtr.applymap(lambda c: c + level)
+        Xte = Xte.applymap(lambda c: c + level)
     if isinstance(labels[0], str):
         ytr, yte = np.array(list(ytr), dtype=object), np.array(list(yte), dtype=object)
     sorted_labels = sorted(set(labels))
@@ -58,6 +61,10 @@ def observe(entry, labels, seed, n_train=14, n_test=6):
     try:
         with joblib.parallel_backend("threading"):
             clf = entry["factory"]()
+            if refit and len(sorted_labels) >= 3:
+                # the same object was fitted before on data that lacks the smallest label
+                keep = [i for i, l in enumerate(ytr) if l != sorted_labels[0]]
+                clf.fit(Xtr.iloc[keep].reset_index(drop=True), ytr[keep])
             clf.fit(Xtr, ytr)
             proba = np.asarray(clf.predict_proba(Xte))
             pred = clf.predict(Xte)
@@ -74,9 +81,19 @@ def observe(entry, labels, seed, n_train=14, n_test=6):
             X2 = from_nested_to_3d_numpy(Xte).squeeze(1)
             o["members"] = [[dec_row(r) for r in clf.estimators_[i].predict_proba(forest_features(X2, clf.intervals_[i]))]
                             for i in range(clf.n_estimators)]
+        elif name == "BOSSEnsemble":
+            # every fitted member casts one vote per instance for the class it predicts
+            mem = []
+            for member in clf.classifiers:
+                votes = member.predict(Xte)
+                mem.append([[[1, 1] if rank.get(v if not isinstance(v, np.generic) else v.item(), 0) == k + 1 else [0, 1]
+                             for k in range(len(sorted_labels))] for v in votes])
+            o["members"] = mem
         elif name == "ColumnEnsembleClassifier":
             mem = []
             for (nm, est, cols) in clf.estimators_:
+                if isinstance(est, str):      # 'drop'
+                    continue
                 mem.append([dec_row(r) for r in est.predict_proba(Xte.iloc[:, cols] if isinstance(cols, list) else Xte.iloc[:, [cols]])])
             o["members"] = mem
         cfg = {"n": n_test, "K": len(sorted_labels), "truth": [rank[t if not isinstance(t, np.generic) else t.item()] for t in yte]}
@@ -113,14 +130,17 @@ def run(ctx):
     for ei, entry in enumerate(entries):
         slow = entry.get("cost") == "slow"
         for li, labels in enumerate(LABEL_SETS):
-            for s in range(nseeds if not slow else max(1, nseeds // 3)):
-                if slow and ctx.quick and li % 2 == 1:
+            seeds = list(range(nseeds)) if not slow else ([0, 2] if ctx.quick else [0, 1, 2, 3, 5, 7])
+            for s in seeds:
+                if slow and ctx.quick and li in (3, 5):
                     continue
                 seed = ctx.seed * 1000 + ei * 100 + li * 10 + s
                 unbalanced = (s % 2 == 1)
-                cfg, obs = observe(entry, labels, seed, n_train=14 if not unbalanced else 11)
+                refit, level = (s % 3 == 2), (1.0e8 if s % 4 == 3 else 0.0)
+                cfg, obs = observe(entry, labels, seed, n_train=14 if not unbalanced else 11, refit=refit, level=level)
                 ctx.evaluations += 1
-                sc = {"classifier": entry["name"], "labels": labels, "seed": seed, "n_train": 14 if not unbalanced else 11}
+                sc = {"classifier": entry["name"], "labels": labels, "seed": seed, "n_train": 14 if not unbalanced else 11,
+                      "refit": refit, "level": level}
                 if cfg is None:
                     ctx.violation(sc, "crash on valid input: " + obs["crash"])
                     continue
@@ -170,7 +190,8 @@ def replay(ctx, doc):
             print("VIOLATION property=C17 replay=%s" % ctx.replay)
         return 0 if ok else 1
     entry = [e for e in E.classifiers() if e["name"] == sc["classifier"]][0]
-    cfg, obs = observe(entry, sc["labels"], sc["seed"], sc.get("n_train", 14))
+    cfg, obs = observe(entry, sc["labels"], sc["seed"], sc.get("n_train", 14), refit=sc.get("refit", False),
+                       level=sc.get("level", 0.0))
     print("observed:", canon(obs)[:1500])
     if cfg is None:
         print("VIOLATION property=C17 replay=%s" % ctx.replay)
